@@ -1028,6 +1028,21 @@ UtilOK1(e) ==
     [] e.fn = "RectIsEmpty"    -> e.b = (P[2][2] <= P[1][2] \/ P[2][1] <= P[1][1])
     [] e.fn = "RectMid"        -> e.res = << <<TruncDiv(P[1][1] + P[2][1], 2), TruncDiv(P[1][2] + P[2][2], 2)>> >>
     [] e.fn = "Path64ToPathD"  -> e.res = P
+    \* a delta callback that always returns delta is the constant-delta offset (Polygon end type, Miter / Square /
+    \* Bevel joins: identical vertex lists); the callback is asked once per vertex of every path that is offset, with
+    \* the vertex index and the index of its cyclic predecessor (both as uint8: paths of up to 255 vertices)
+    [] e.fn = "OffsetCallbackConst" ->
+          /\ e.resSet = e.resSet2
+          /\ \A i \in 1..Len(e.idx) : e.idx[i][1] >= 0 /\ e.idx[i][2] >= 0 /\ e.idx[i][1] # e.idx[i][2]
+          /\ \A i \in 2..Len(e.idx) : e.idx[i][1] # 0 => e.idx[i][2] = e.idx[i - 1][1]
+    \* AddPathsWithScaleFunc / ExecuteWithScaleFunc with the library's own scaling functions are AddPaths / ExecuteOC
+    [] e.fn = "EngineDScaleFunc" -> e.resSet = e.resSet2
+    \* PolyTree accessors: Count() is the number of children of a node, Clear() empties the tree
+    [] e.fn = "PolyTreeAccessors" ->
+          /\ Len(e.counts) = Len(e.tree) + 1
+          /\ e.counts[1] = Cardinality({k \in 1..Len(e.tree) : e.tree[k].parent = 0})
+          /\ \A k \in 1..Len(e.tree) : e.counts[k + 1] = Cardinality({m \in 1..Len(e.tree) : e.tree[m].parent = k})
+          /\ e.b
     [] OTHER -> FALSE
 
 UtilOK(e, idx) ==
